@@ -415,10 +415,10 @@ def rule_P(ctx):
               node=kinds['num'], key='num')
     a, b = [x.arg for x in kinds['inf'].args.args]
     bad = []
-    for o in orders.weak_orderings(['A', 'B']):
-        got = orders.ev(kinds['inf'].body, {a: o['A'], b: o['B']})
-        if got != max(o['A'], o['B']):
-            bad.append({'ordering': orders.describe(o), 'got rank': got})
+    for A_, B_ in ((2, 5), (5, 2), (3, 3), (0, 4), (4, 0)):
+        got = orders.ev(kinds['inf'].body, {a: A_, b: B_})
+        if got != max(A_, B_):
+            bad.append({'accumulated': A_, 'distance': B_, 'result': got, 'expected': max(A_, B_)})
     ctx.check(not bad, 'C18.P', f, 'p = infinity: max(accumulated, distance) (discrete Frechet)',
               witness={'wrong': bad}, node=kinds['inf'], key='inf')
     a, b = [x.arg for x in kinds['zero'].args.args]
